@@ -46,6 +46,7 @@ type Env struct {
 	nAPI       int
 	retained   []retained
 	NoRetain   bool
+	RetainCap  int // 0 = 64
 	Recoveries int
 	lastOpenRecovered bool
 	// OnAPI, when set, is called right before every API call with its index (1-based).
@@ -102,6 +103,9 @@ func (e *Env) observe(j *JEntry) {
 		e.Probes["segment_created"]++
 	case j.Kind == JRemove && strings.HasSuffix(base, ".psg"):
 		e.Probes["segment_removed"]++
+		if len(e.retained) > 0 {
+			e.Probes["segment_removed_while_slices_retained"]++
+		}
 	case j.Kind == JTruncate && strings.HasSuffix(base, ".psg"):
 		e.Probes["segment_truncated"]++
 	case j.Kind == JRename && strings.HasSuffix(j.Name2, ".bac"):
@@ -169,9 +173,14 @@ func scribble(b []byte) {
 }
 
 func (e *Env) retain(b []byte, what string) {
-	if e.NoRetain || len(b) == 0 || len(e.retained) >= 64 {
+	cap := e.RetainCap
+	if cap == 0 {
+		cap = 64
+	}
+	if e.NoRetain || len(b) == 0 || len(e.retained) >= cap {
 		return
 	}
+	e.Probes["slices_retained"]++
 	e.retained = append(e.retained, retained{live: b, snap: append([]byte(nil), b...), what: what})
 }
 
@@ -356,7 +365,7 @@ func (e *Env) CheckScan() *Violation {
 		if !bytes.Equal(v, want) {
 			return violf("scan-mismatch", "scan returned %s=%s, model has %s", clip(k), showVal(v), showVal(want))
 		}
-		if n <= 4 {
+		if n <= 4 || e.RetainCap > 64 {
 			e.retain(v, "Next(value)")
 			e.retain(k, "Next(key)")
 		}
